@@ -186,6 +186,8 @@ static void run_pool(Rng& g, long nops, std::size_t node_size, std::size_t block
             emit(fmt("pool dealloc_node %zu", R->off(l.p)), "done", pool_state(*pool));
         }
         ++n_dealloc;
+        O->check_freed(l.p, l.array ? l.count * l.size : l.size, ns,
+                       std::is_same<List, detail::small_free_memory_list>::value ? 1 : 8, "pool release");
         O->verify_all("after release");
     };
     auto pick_victim = [&]() -> std::size_t
@@ -580,6 +582,11 @@ static void run_coll(Rng& g, long nops, std::size_t max_node, std::size_t block_
             emit(fmt("coll dealloc_node %zu %zu", R->off(l.p), l.size), "done", coll_state(*c));
         }
         ++n_dealloc;
+        {
+            std::size_t bns = c->pools_.get(l.size).node_size();
+            O->check_freed(l.p, l.array ? l.count * l.size : l.size, bns,
+                           std::is_same<List, detail::small_free_memory_list>::value ? 1 : 8, "collection release");
+        }
         O->verify_all("after release");
     };
     auto pick_size = [&]() -> std::size_t
